@@ -337,3 +337,29 @@ def _(v):
                         ("substitution", lambda: rates(Reaction({"A": 1, "B": 1}, {"C": 1}, "k1"), {}, substitutions={"k1": 3 / u.s}))):
         res = verdict(make)
         v.prove("wrong_dimension_" + label + "_refused_or_harmless", res[0] in ("refused", "independent"), detail=repr(res))
+
+
+@harness("C10", "alternative_builder.dedimensionalisation_of_a_problem", functions=["chempy.kinetics.ode:_mk_dedim", "chempy.kinetics.ode:_mk_dedim.<locals>.dedim_tcp", "chempy.units:get_derived_unit", "chempy.units:to_unitless"],
+         kind="shape-bounded", div_mode="assume", samples=0, max_paths=400)
+def _(v):
+    """what the alternative builder's unit-aware solve hands to the integrator: time, concentrations and parameters given in ANY compatible units
+    become numbers in registry units with the same physical value, and the units reported for them are the registry's units of their dimension"""
+    from chempy.kinetics.ode import _mk_dedim
+    from chempy import units as CU
+    from pyvc.qmodel import si_value, dim_of, std_table, Quantity
+    t = std_table()
+    reg = _registry(v, t)
+    v.contract(CU.default_unit_in_registry, "default_unit_in_registry", None, lambda v_, value, registry: _unit_in_registry(t, registry, value) if isinstance(value, Quantity) else 1)
+    tu, cu, ku = t.generic("tu", TIME), t.generic("cu", CONC), t.generic("ku", _rate_dim(2))
+    tm, cA, cB, k = v.real("t", lo=0, hi=1e6), v.real("cA", lo=0, hi=1e3), v.real("cB", lo=0, hi=1e3), v.real("k", lo=1e-9, hi=1e9)
+    ctx = v.call(_mk_dedim, reg)
+    (_t, _c, _p), extra = v.call(ctx["dedim_tcp"], tm * tu, {"A": cA * cu, "B": cB * cu}, {"k": k * ku})
+    ut, uc, up = extra["unit_time"], extra["unit_conc"], extra["param_units"]["k"]
+    v.prove("units_are_the_registrys", dim_of(ut) == TIME and dim_of(uc) == CONC and dim_of(up) == _rate_dim(2))
+    v.prove_identity("registry_time_unit", si_value(ut), si_value(reg["time"]))
+    v.prove_identity("registry_concentration_unit", si_value(uc), si_value(reg["amount"] / reg["length"] ** 3))
+    v.prove_identity("time_same_physical_value", _t * si_value(ut), si_value(tm * tu))
+    v.prove_identity("concentration_A_same_physical_value", _c["A"] * si_value(uc), si_value(cA * cu))
+    v.prove_identity("concentration_B_same_physical_value", _c["B"] * si_value(uc), si_value(cB * cu))
+    v.prove_identity("parameter_same_physical_value", _p["k"] * si_value(up), si_value(k * ku))
+    v.prove("keys_kept", set(_c) == {"A", "B"} and set(_p) == {"k"})
